@@ -56,6 +56,20 @@ class ClassRef:
         return f'{self.module.split(".")[-1]}.{self.qualname}'
 
 
+def register_functions(tree):
+    "tell the subset interpreter where each function lives (module tree, enclosing function), for helper lookups"
+    from .minieval import FN_HOME
+
+    def walk(node, enclosing):
+        for ch in ast.iter_child_nodes(node):
+            if isinstance(ch, (ast.FunctionDef, ast.AsyncFunctionDef)):
+                FN_HOME[id(ch)] = (tree, enclosing, ch)
+                walk(ch, ch)
+            else:
+                walk(ch, enclosing)
+    walk(tree, None)
+
+
 class FuncRef:
     def __init__(self, module, qualname, node):
         self.module, self.qualname, self.node = module, qualname, node
@@ -133,6 +147,7 @@ class Model:
             src = p.read_text()
             try:
                 self.trees[name] = ast.parse(src, filename=str(p))
+                register_functions(self.trees[name])
             except SyntaxError as e:
                 raise AnalysisError(f'{p}: does not parse: {e}')
             self.paths[name] = p
